@@ -56,6 +56,7 @@ class State:
         s.stats = Counter()
         s.le_facts = set()  # (repr(a), repr(b)) : a <= b assumed by the analysed code's own guards
         s.generic_nonzero = False
+        s.ambient = set()         # index variables bound by an enclosing vmap: free in every value although not an axis
         s.scalar_matrix = set()   # symmetric heads whose matrix dimension is the literal 1 (no matrix indices)
 
 
@@ -128,6 +129,10 @@ class Val:
         return f"Val(shape={list(s.shape)}, {len(s.terms)} terms)"
 
 
+def allfree(v):
+    return set(v.free()) | ST.ambient
+
+
 def axsize(a):
     d = D(1)
     for v in a:
@@ -151,7 +156,7 @@ def fresh_axes(axes, p="i"):
 
 def inst(val, m):
     """terms of val with free vars renamed by m and every bound var replaced by a fresh one."""
-    fr = set(val.free())
+    fr = set(val.free()) | ST.ambient
     out = []
     for c, n in val.terms:
         mm = dict((k, v) for k, v in m.items() if k in fr)
@@ -283,7 +288,7 @@ def mul(x, y, what="mul"):
         for c2, n2 in inst(y, my):
             t.append((c1 * c2, Net(n1.f + n2.f)))
     # each product term must have its own bound variables
-    fr = {v for a in axes for v in a}
+    fr = {v for a in axes for v in a} | ST.ambient
     out = []
     for c, n in t:
         mm = {i: fresh(ST.size[i], "b") for i in n.vars() if i not in fr}
@@ -326,7 +331,7 @@ def einsum(spec, *ops, what="einsum"):
         terms = new
         if len(terms) > 20000:
             raise Undecided("term cap")
-    fr = {v for a in out_axes for v in a}
+    fr = {v for a in out_axes for v in a} | ST.ambient
     # contracted letters whose variables occur in no factor contribute their size
     res = []
     allv = [x for ch, a in letter.items() if ch not in out for x in a]
@@ -806,7 +811,7 @@ def _occurring(val, nterms):
     occ = set()
     for _, n in nterms:
         occ.update(n.vars())
-    return [v for v in val.free() if v in occ]
+    return [v for v in val.free() if v in occ] + sorted(v for v in ST.ambient if v in occ)
 
 
 def _find_or_make(kind, nterms, bslots, mslots, sym, extra=None):
@@ -897,7 +902,7 @@ def elementwise(kind, v, extra=None):
     lifted = _try_lift(v, nt, lambda x: elementwise(kind, x, extra))
     if lifted is not None:
         return lifted
-    if kind == "Recip" and len(nt) == 1 and len(nt[0][1].f) >= 2 and nt[0][0].is_const() and all(x in set(v.free()) for _, ix in nt[0][1].f for x in ix):
+    if kind == "Recip" and len(nt) == 1 and len(nt[0][1].f) >= 2 and nt[0][0].is_const() and all(x in allfree(v) for _, ix in nt[0][1].f for x in ix):
         # 1/(c * f1 * f2 ...) = (1/c) * 1/f1 * 1/f2 ...
         out = const(D(1) / nt[0][0])
         out = Val(v.axes, [(D(1) / nt[0][0], Net())])
@@ -905,7 +910,7 @@ def elementwise(kind, v, extra=None):
             out = mul(out, elementwise("Recip", Val(v.axes, [(D(1), Net([g]))])))
         return out
     sf = _single_factor(nt)
-    if sf is not None and sf[0].is_one() and ST.head[sf[1][0]].kind == "Recip" and all(x in set(v.free()) for x in sf[1][1]):
+    if sf is not None and sf[0].is_one() and ST.head[sf[1][0]].kind == "Recip" and all(x in allfree(v) for x in sf[1][1]):
         inner = head_arg_val(sf[1][0], sf[1][1], v.axes)
         if kind == "Recip":
             return Val(v.axes, inner.terms)                 # 1/(1/X) = X
@@ -914,7 +919,7 @@ def elementwise(kind, v, extra=None):
     slots = _occurring(v, nt)
     hid, order = _find_or_make(kind, nt, slots, (), False, extra)
     axes, m = fresh_axes(v.axes)
-    return Val(axes, [(D(1), Net([(hid, tuple(m[x] for x in order))]))])
+    return Val(axes, [(D(1), Net([(hid, tuple(m.get(x, x) for x in order))]))])
 
 
 def _matrix_axes(v, what):
@@ -944,7 +949,7 @@ def inverse(v, what="inverse"):
     if len(nt) == 1 and len(nt[0][1].f) == 1 and nt[0][0].is_const() and ((A and B) or scalar):
         c, n = nt[0]
         h, ix = n.f[0]
-        if ((scalar and ST.head[h].kind in ("atom", "InvAtom")) or (len(ix) >= 2 and A and B and set(ix[-2:]) == {A[0], B[0]})) and ST.head[h].sym and ST.head[h].kind != "Inv" and all(x in m for x in ix) and len(set(ix)) == len(ix):
+        if ((scalar and ST.head[h].kind in ("atom", "InvAtom")) or (len(ix) >= 2 and A and B and set(ix[-2:]) == {A[0], B[0]})) and ST.head[h].sym and ST.head[h].kind != "Inv" and all((x in m or x in ST.ambient) for x in ix) and len(set(ix)) == len(ix):
             if h not in ST.pair:
                 nh = f"Inv({h})"
                 ST.head[nh] = HeadInfo("InvAtom", sym=True)
@@ -956,7 +961,7 @@ def inverse(v, what="inverse"):
             ph = ST.pair[h]
             if h in ST.lndet and ph not in ST.lndet:
                 ST.lndet[ph] = (-ST.lndet[h][0], ST.lndet[h][1])
-            inv = Val(axes, [(D(1) / c, Net([(ph, tuple(m[x] for x in ix))]))])
+            inv = Val(axes, [(D(1) / c, Net([(ph, tuple(m.get(x, x) for x in ix))]))])
             if h not in ST.lndet:
                 if ph in ST.lndet:
                     pc, plh = ST.lndet[ph]
@@ -968,7 +973,7 @@ def inverse(v, what="inverse"):
                     ST.lndet[ph] = (-1, lh)
             lc, lh = ST.lndet[h]
             bix = ix if scalar else ix[:-2]
-            ld_terms = [(D(lc), Net([(lh, tuple(m[x] for x in bix))]))]
+            ld_terms = [(D(lc), Net([(lh, tuple(m.get(x, x) for x in bix))]))]
             if not c.is_one():
                 lg = elementwise("Log", const(c))
                 ld_terms = ld_terms + [(cc * (D(1) if scalar else ST.size[A[0]]), nn) for cc, nn in lg.terms]
@@ -982,14 +987,17 @@ def inverse(v, what="inverse"):
         e = eye(axsize(A))
         inv = mul(expand_dims(rec, ["k"] * (len(rec.axes)) + [None]), e)
         return inv, lg
+    if scalar and nt:
+        # 1 x 1 "matrices": inverse = reciprocal, log-determinant = logarithm
+        return elementwise("Recip", v), _drop_last2(elementwise("Log", v))
     sf = _single_factor(nt)
-    if sf is not None and sf[0].is_one() and ST.head[sf[1][0]].kind == "Inv" and all(x in set(v.free()) for x in sf[1][1]) and A and B:
+    if sf is not None and sf[0].is_one() and ST.head[sf[1][0]].kind == "Inv" and all(x in allfree(v) for x in sf[1][1]) and A and B:
         inner = head_arg_val(sf[1][0], sf[1][1], v.axes)      # Inv(Inv(X)) = X
         return Val(v.axes, inner.terms), neg(logdet(inner, what))
     occ = _occurring(v, nt)
     bsl = [x for x in occ if x not in mvars]
     hid, order = _find_or_make("Inv", nt, bsl, mvars, True)
-    inv = Val(axes, [(D(1), Net([(hid, tuple(m[x] for x in order) + tuple(m[x] for x in mvars))]))])
+    inv = Val(axes, [(D(1), Net([(hid, tuple(m.get(x, x) for x in order) + tuple(m[x] for x in mvars))]))])
     ld = logdet(v, what)
     return inv, ld
 
@@ -1009,6 +1017,10 @@ def _as_diagonal(nt, A, B):
     return out
 
 
+def _drop_last2(v):
+    return Val(v.axes[:-2], v.terms)
+
+
 def logdet(v, what="slogdet"):
     v = as_val(v)
     A, B = _matrix_axes(v, what)
@@ -1022,27 +1034,29 @@ def logdet(v, what="slogdet"):
     scalar = (not A) and (not B)
     if scalar and len(nt) == 1 and len(nt[0][1].f) == 1 and nt[0][0].is_one():
         h, ix = nt[0][1].f[0]
-        if h in ST.lndet and all(x in m for x in ix):
+        if h in ST.lndet and all((x in m or x in ST.ambient) for x in ix):
             lc, lh = ST.lndet[h]
-            return Val(baxes, [(D(lc), Net([(lh, tuple(m[x] for x in ix))]))])
+            return Val(baxes, [(D(lc), Net([(lh, tuple(m.get(x, x) for x in ix))]))])
     if len(nt) == 1 and len(nt[0][1].f) == 1 and nt[0][0].is_one() and A and B:
         c, n = nt[0]
         h, ix = n.f[0]
-        if len(ix) >= 2 and set(ix[-2:]) == {A[0], B[0]} and ST.head[h].sym and ST.head[h].kind != "Inv" and h not in ST.lndet and all(x in m for x in ix) and len(set(ix)) == len(ix):
+        if len(ix) >= 2 and set(ix[-2:]) == {A[0], B[0]} and ST.head[h].sym and ST.head[h].kind != "Inv" and h not in ST.lndet and all((x in m or x in ST.ambient) for x in ix) and len(set(ix)) == len(ix):
             lh = f"LnDet({h})"
             ST.head[lh] = HeadInfo("LnDetAtom")
             ST.lndet[h] = (1, lh)
             if h in ST.pair:
                 ST.lndet[ST.pair[h]] = (-1, lh)
-        if len(ix) >= 2 and set(ix[-2:]) == {A[0], B[0]} and h in ST.lndet and all(x in m for x in ix) and len(set(ix)) == len(ix):
+        if len(ix) >= 2 and set(ix[-2:]) == {A[0], B[0]} and h in ST.lndet and all((x in m or x in ST.ambient) for x in ix) and len(set(ix)) == len(ix):
             lc, lh = ST.lndet[h]
-            return Val(baxes, [(D(lc), Net([(lh, tuple(m[x] for x in ix[:-2]))]))])
+            return Val(baxes, [(D(lc), Net([(lh, tuple(m.get(x, x) for x in ix[:-2]))]))])
     dg = _as_diagonal(nt, A, B)
     if dg is not None:
         dvec = Val(list(v.axes[:-2]) + [A], dg)
         return sum_axis(elementwise("Log", dvec), -1)
+    if scalar and nt:
+        return _drop_last2(elementwise("Log", v))
     sf = _single_factor(nt)
-    if sf is not None and sf[0].is_one() and ST.head[sf[1][0]].kind == "Inv" and all(x in set(v.free()) for x in sf[1][1]) and A and B:
+    if sf is not None and sf[0].is_one() and ST.head[sf[1][0]].kind == "Inv" and all(x in allfree(v) for x in sf[1][1]) and A and B:
         # LnDet(Inv(X)) = -LnDet(X)
         inner = head_arg_val(sf[1][0], sf[1][1], v.axes)
         return neg(logdet(inner, what))
@@ -1050,7 +1064,7 @@ def logdet(v, what="slogdet"):
     bsl = [x for x in occ if x not in mvars]
     # LnDet is invariant under transposition: treat argument symmetric for lookup
     hid, order = _find_or_make("LnDet", nt, bsl, mvars, True)
-    return Val(baxes, [(D(1), Net([(hid, tuple(m[x] for x in order))]))])
+    return Val(baxes, [(D(1), Net([(hid, tuple(m.get(x, x) for x in order))]))])
 
 
 def matfun(kind, v, what=None):
@@ -1063,7 +1077,7 @@ def matfun(kind, v, what=None):
     occ = _occurring(v, nt)
     bsl = [x for x in occ if x not in mvars]
     hid, order = _find_or_make(kind, nt, bsl, mvars, False)
-    return Val(axes, [(D(1), Net([(hid, tuple(m[x] for x in order) + tuple(m[x] for x in mvars))]))])
+    return Val(axes, [(D(1), Net([(hid, tuple(m.get(x, x) for x in order) + tuple(m[x] for x in mvars))]))])
 
 
 # --------------------------------------------------------------------------------- rewriting
@@ -1082,6 +1096,8 @@ def _seg_relation(h1, h2):
 
 def simplify(coef, net, free):
     """apply the fixed rewrite system to one term; returns (coef, Net) or None when the term is zero."""
+    if ST.ambient:
+        free = set(free) | ST.ambient
     f = list(net.f)
     H = ST.head
     guard = 0
@@ -1321,6 +1337,8 @@ def _refine(f, free):
 
 
 def iso(n1, n2, free):
+    if ST.ambient:
+        free = set(free) | ST.ambient
     f1 = list(n1.f)
     f2 = list(n2.f)
     if len(f1) != len(f2):
@@ -1537,7 +1555,7 @@ def normalize_terms(terms, free, _absorb=True):
 
 
 def normalize(v):
-    return normalize_terms(v.terms, set(v.free()))
+    return normalize_terms(v.terms, allfree(v))
 
 
 def terms_equal(t1, t2, free):
@@ -1573,7 +1591,7 @@ def diff(v1, v2, what="compare"):
     """returns list of differences (empty = equal). v1 = implementation, v2 = reference."""
     v1, v2 = as_val(v1), as_val(v2)
     v2 = rename_onto(v2, v1, what)
-    free = set(v1.free())
+    free = allfree(v1)
     t1 = normalize(v1)
     rest = normalize(v2)
     diffs = []
@@ -1662,7 +1680,7 @@ def zero_mod_recip(v, depth=0):
         return True
     if depth > 4:
         return False
-    free = set(v.free())
+    free = allfree(v)
     rhos = sorted({h for _, n in nt for h, _ in n.f if ST.head[h].kind == "Recip"})
     if not rhos:
         return False
